@@ -30,9 +30,29 @@ REGISTRY = {
     "C02": ("vsim.engines.crashsim", "fault_enumeration", 320, 6000, 100, 900),
     "C09": ("vsim.engines.crashsim", "fault_enumeration", 240, 4000, 100, 900),
     "C10": ("vsim.engines.crashsim", "fault_enumeration", 96, 1500, 110, 1200),
+    "C01": ("vsim.engines.rfsim", "exploration", 1500, 40000, 90, 900),
+    "C04": ("vsim.engines.rfsim", "exploration", 1500, 40000, 90, 900),
+    "C05": ("vsim.engines.rfsim", "exploration", 1500, 40000, 90, 900),
+    "C06": ("vsim.engines.rfsim", "exploration", 1200, 30000, 90, 900),
+    "C07": ("vsim.engines.rfsim", "exploration", 1200, 30000, 90, 900),
+    "C08": ("vsim.engines.rfsim", "exploration", 1000, 30000, 90, 900),
+    "C11": ("vsim.engines.rfsim", "exploration", 1000, 30000, 90, 900),
+    "C19": ("vsim.engines.rfsim", "exploration", 1500, 40000, 90, 900),
 }
 
+_RF = ("one run = one seeded history: channel configuration (type cell x rate x cadences x mode, start snapped to a "
+       "file/subdir boundary half of the time) x writer session(s) through the real C library in a forked node x "
+       "reader/query history on old and fresh reader objects under a shuffled readdir order; distinct = distinct "
+       "trace digests (FS-op trace of the recorder + outcome); ")
 RULES = {
+    "C01": _RF + "non-trivial: >= 2 data files and >= 1 file-spanning write",
+    "C04": _RF + "non-trivial: >= 2 data files and >= 1 file-spanning write",
+    "C05": _RF + "invalid calls of every class interleaved; non-trivial: >= 2 data files",
+    "C06": _RF + "every file inspected raw; properties regenerated once per run; non-trivial: >= 2 files and a file-spanning write",
+    "C07": _RF + "continuous mode, (type, byte order, complex style) cell = run index mod 70; non-trivial: >= 2 files and a file-spanning write",
+    "C08": _RF + "30 generated queries per run (ranges on file/block/gap edges, splits, subchannels, vector reads incl. length 1 and nsub); non-trivial: >= 2 files and a file-spanning write",
+    "C11": _RF + "2-4 sessions over 1-3 top-level directories incl. single-parameter mismatches and writes into finalized periods; non-trivial: >= 2 sessions",
+    "C19": _RF + "getters compared with the model after every call, rejected calls interleaved; non-trivial: >= 2 data files",
     "C02": "one run = one seeded recording (config x write sequence) executed in lock-step; EVERY boundary "
            "between two FS ops of the recorder is evaluated as a crash state (+ torn writes, + one real SIGKILL "
            "cross-check); evaluations = crash states evaluated; a run is non-trivial when it produced >= 2 data "
